@@ -192,7 +192,9 @@ class Library:
         # float32 library whose ln_prior is float64 (what prior.sample(dtype=float32, return_logprobs=True) makes)
         # gets -(i + 1/3), which float32 cannot hold: a silent downcast of that column shows.
         lp_dt = np.float64 if spec.get("ln_prior_dtype") == "f8" else dt
-        full_tags = -(np.arange(n) + (1.0 / 3.0 if (lp_dt is np.float64 and dt is np.float32) else 0.25))
+        # tag_shift: a second library of the same size carries OTHER tags (-(i + 0.75)), so a stale ln_prior column of
+        # the library that was in the same file before shows as a wrong tag
+        full_tags = -(np.arange(n) + (1.0 / 3.0 if (lp_dt is np.float64 and dt is np.float32) else 0.25) + float(spec.get("tag_shift", 0.0)))
         order = spec.get("column_order") or ["P", "e", "omega", "M0", "s"]
         vals = {k: q[k].value.astype(dt) for k in order}
         tag_vals = full_tags.astype(lp_dt)
